@@ -499,6 +499,18 @@ func (cs *CommandSpec) Exec(ctx *Context) error {
 // agreeable.  Re-attempt the event work and celebrate sweet victory.
 var JavascriptTestValue interface{}
 
+// JavascriptStackDepthLimit bounds the nesting of Javascript function
+// calls.
+//
+// The interpreter recurses on the Go stack.  Without a limit, runaway
+// recursion in a script ("function f(n) { return f(n+1); } f(0)")
+// overflows the Go stack within seconds, which is a fatal error that
+// kills the whole process long before the default Javascript timeout
+// stops the script.  With the limit, the script gets a RangeError.
+//
+// Zero or negative means no limit.
+var JavascriptStackDepthLimit = 5000
+
 // RunJavascript executes Javascript code with the given bindings.  A
 // new environment is created for each call.  That environment
 // contains several bindings.  See
@@ -518,6 +530,9 @@ func RunJavascript(ctx *Context, bs *Bindings, props map[string]interface{}, src
 	envBindings := make(map[string]interface{})
 
 	runtime := otto.New()
+	if 0 < JavascriptStackDepthLimit {
+		runtime.SetStackDepthLimit(JavascriptStackDepthLimit)
+	}
 
 	if ctx != nil && ctx.App != nil {
 		if err := ctx.App.UpdateJavascriptRuntime(ctx, runtime); err != nil {
